@@ -50,17 +50,12 @@ Theorem C20_mean_predictions_def : forall m P o ch nm e,
 Proof. exact mean_predictions_eq. Qed.
 Print Assumptions C20_mean_predictions_def.
 
-(* an evaluation file reloads unchanged — for every evaluation with at least one experiment *)
+(* an evaluation file reloads unchanged — for EVERY evaluation the constructor accepts,
+   including those with zero experiments and / or zero posterior samples *)
 Theorem C20_eval_save_load : forall m P o ch nm e,
-  mk_eval m P o ch nm = Ok e -> (0 < length P)%nat -> ev_load (ev_save e) = Ok e.
+  mk_eval m P o ch nm = Ok e -> ev_load (ev_save e) = Ok e.
 Proof. exact eval_save_load. Qed.
 Print Assumptions C20_eval_save_load.
-
-(* ... and NOT for the evaluation with zero experiments, which the constructor accepts *)
-Theorem C20_eval_save_load_empty_refuted :
-  exists m P o ch nm e, mk_eval m P o ch nm = Ok e /\ ev_load (ev_save e) = Err E_TYPE.
-Proof. exact eval_save_load_empty_refuted. Qed.
-Print Assumptions C20_eval_save_load_empty_refuted.
 
 (* retrospective.calculate_mse = (1/n) sum_i ((1/T) sum_theta p[theta][i] - o[i])^2 *)
 Theorem C20_calculate_mse_def : forall pt o,
@@ -199,6 +194,15 @@ Example C20_eval_example :
   = SL [SZ 0; SL [SL [SZ 0; SL [SZ 1; SZ 4]]; SL [SZ 0; SL [SZ 1; SZ 144]]; SL [SZ 0; SL [SZ 9; SZ 256]];
                   SL [SZ 0; SL [SL [SZ 1; SZ 2]; SL [SZ 2; SZ 3]]]]].
 Proof. vm_compute. reflexivity. Qed.
+
+(* the evaluation with 0 experiments and 2 posterior samples (the witness of the formerly refuted
+   clause: it used to save but not load) now reloads, and so does the 0 x 0 one *)
+Example C20_empty_evaluation_reloads :
+  (dor e <- mk_eval 2 [] [] [0; 0]%Z []; ev_load (ev_save e))
+  = Ok {| ev_preds := []; ev_obs := []; ev_chains := [0; 0]%Z; ev_names := [] |}
+  /\ (dor e <- mk_eval 0 [] [] [] []; ev_load (ev_save e))
+     = Ok {| ev_preds := []; ev_obs := []; ev_chains := []; ev_names := [] |}.
+Proof. split; vm_compute; reflexivity. Qed.
 
 (* repeated single-agent measurement (1/2 and 1/4 -> 3/8), control in either column, a second
    sample without single-agent data: lenient mode skips its row, strict mode refuses *)
